@@ -6,6 +6,7 @@ import (
 	"fmt"
 	"io/ioutil"
 	"os"
+	"os/exec"
 	"path/filepath"
 	"runtime"
 	"sort"
@@ -476,6 +477,27 @@ func c20Monitor(args []string) int {
 			rep.Violate("cache-build-differs-from-source", map[string]interface{}{"collection": "prelude"}, d)
 		}
 	}
+	// the cache's normal life: written by one engine process, read by the next one
+	{
+		xg := genBookGames(rng, 2+rng.Intn(5))
+		ioutil.WriteFile(filepath.Join(dir, "xproc.txt"), []byte(renderSan(xg)), 0644)
+		in := map[string]interface{}{"collection": "xproc", "variant": "cache written by another process", "seed": seed}
+		setCurrent(in)
+		rep.Cases++
+		cmd := exec.Command(os.Args[0], "c20-write", dir, "xproc.txt")
+		cmd.Env = os.Environ()
+		if out, err := cmd.CombinedOutput(); err != nil {
+			rep.Violate("cache-build-fails", in, "the writing process failed: "+err.Error()+" "+string(out[:min(len(out), 300)]))
+		} else if _, err := os.Stat(filepath.Join(dir, "xproc.txt.cache")); err != nil {
+			rep.Violate("cache-build-fails", in, "the writing process left no cache file")
+		} else if xb, err, hung := buildBook(dir, "xproc.txt", openingbook.San, true); hung || err != nil {
+			rep.Violate("cache-damaged-error", in, fmt.Sprint(err, hung))
+		} else if d := diffSnap(expectedBook(xg), snapshotOf(xb)); d != "" {
+			rep.Violate("cache-roundtrip", in, "the book loaded from a cache that another process wrote: "+d)
+		} else {
+			rep.Stats["cache_written_by_another_process"]++
+		}
+	}
 	for c := 0; c < n; c++ {
 		games := genBookGames(rng, 2+rng.Intn(6))
 		src := filepath.Join(dir, "book.txt")
@@ -656,7 +678,18 @@ func c20Monitor(args []string) int {
 	return rep.Emit()
 }
 
+// c20-write <dir> <file>: builds the book of <file> with the cache on (a process of its own: see c20-monitor)
+func c20Write(args []string) int {
+	b := openingbook.NewBook()
+	if err := b.Initialize(args[0], args[1], openingbook.San, true, false); err != nil {
+		fmt.Fprintln(os.Stderr, err)
+		return 1
+	}
+	return 0
+}
+
 func init() {
+	register("c20-write", c20Write)
 	register("c19-monitor", c19Monitor)
 	register("c20-monitor", c20Monitor)
 }
